@@ -26,6 +26,8 @@ def load_known():
 
 
 def simple_shape(fn):
+    """body statements of an inlinable helper, with guard-clause returns restructured into if/else nesting so that the
+    only `return` left is the last statement; None when the helper is too complex"""
     body = [s for s in fn.body if not (isinstance(s, ast.Expr) and isinstance(s.value, ast.Constant))]
     if not body:
         return None
@@ -34,14 +36,72 @@ def simple_shape(fn):
             return None
         if isinstance(n, (ast.FunctionDef, ast.Lambda, ast.ClassDef)) and n is not fn:
             return None
-    rets = [n for n in ast.walk(fn) if isinstance(n, ast.Return)]
-    if len(rets) > 1:
-        return None
-    if rets and rets[0] is not body[-1]:
-        return None
     if fn.args.vararg or fn.args.kwarg or fn.args.kwonlyargs or fn.decorator_list:
         return None
-    return body
+    rets = [n for n in ast.walk(fn) if isinstance(n, ast.Return)]
+    if len(rets) <= 1 and (not rets or rets[0] is body[-1]):
+        return body
+    # guard clauses: returns that end a branch of a top-level if/else chain (not inside loops/try/with)
+    for r in rets:
+        p = getattr(r, "_parent", None)
+        while p is not None and p is not fn:
+            if not isinstance(p, ast.If):
+                return None
+            p = getattr(p, "_parent", None)
+    valued = any(r.value is not None for r in rets)
+    res = "_ret_%s" % fn.name.strip("_")
+
+    def ends_with_return(stmts):
+        return bool(stmts) and isinstance(stmts[-1], ast.Return)
+
+    def norm(stmts):
+        """rewrite so that control never leaves by `return` except at the very end (as assignment to `res`)"""
+        out = []
+        for i, st in enumerate(stmts):
+            rest = stmts[i + 1:]
+            if isinstance(st, ast.Return):
+                if st.value is not None:
+                    out.append(ast.copy_location(ast.Assign(targets=[ast.Name(id=res, ctx=ast.Store())], value=st.value), st))
+                elif valued:
+                    out.append(ast.copy_location(ast.Assign(targets=[ast.Name(id=res, ctx=ast.Store())],
+                                                            value=ast.Constant(value=None)), st))
+                return out, True
+            if isinstance(st, ast.If) and any(isinstance(x, ast.Return) for x in ast.walk(st)):
+                b, bret = norm(st.body)
+                o, oret = norm(st.orelse)
+                tail, tret = norm(rest)
+                if bret and oret:
+                    new_if = ast.copy_location(ast.If(test=st.test, body=b or [ast.Pass()], orelse=o), st)
+                    out.append(new_if)
+                    return out, True
+                if bret:
+                    new_if = ast.copy_location(ast.If(test=st.test, body=b or [ast.Pass()], orelse=(o + tail)), st)
+                    out.append(new_if)
+                    return out, tret
+                if oret:
+                    new_if = ast.copy_location(ast.If(test=st.test, body=(b + tail) or [ast.Pass()], orelse=o), st)
+                    out.append(new_if)
+                    return out, tret
+                out.append(ast.copy_location(ast.If(test=st.test, body=b or [ast.Pass()], orelse=o), st))
+                continue
+            out.append(st)
+        return out, False
+    try:
+        nb, always = norm([A.clone(x) for x in body])
+    except RecursionError:
+        return None
+    if valued:
+        if not always:
+            # falling off the end returns None
+            nb = [ast.Assign(targets=[ast.Name(id=res, ctx=ast.Store())], value=ast.Constant(value=None), lineno=fn.lineno,
+                             col_offset=0)] + nb
+        nb.append(ast.Return(value=ast.Name(id=res, ctx=ast.Load()), lineno=fn.lineno, col_offset=0))
+    for st in nb:
+        ast.fix_missing_locations(st)
+        for n in ast.walk(st):
+            if not hasattr(n, "_module") and hasattr(fn, "_module"):
+                n._module = fn._module
+    return nb
 
 
 class _Subst(ast.NodeTransformer):
@@ -86,6 +146,8 @@ class Inliner:
         self.inlined_sites = {}    # helper qual -> count
         self.remaining_sites = {}  # helper qual -> count
         self.candidates = {}
+        self.opaque = {}           # caller qual -> set of new helper quals it calls without inlining
+        self.new_complex = set()   # new private functions that could not be given a simple shape
         for q, f in repo.funcs.items():
             if q in known:
                 continue
@@ -94,20 +156,30 @@ class Inliner:
             body = simple_shape(f.node)
             if body is not None:
                 self.candidates[q] = (f, body)
+            else:
+                self.new_complex.add(q)
 
-    # -- resolution of a call to a candidate
-    def resolve(self, caller, call):
+    # -- resolution of a call to a new private function
+    def _resolve_func(self, caller, call):
         fn = call.func
         if isinstance(fn, ast.Name):
             g = caller
             while g is not None:
                 for nf in g.nested:
-                    if nf.name == fn.id and nf.qual in self.candidates:
-                        return self.candidates[nf.qual], False
+                    if nf.name == fn.id:
+                        return nf, False
                 g = g.parent
+            # lexically enclosing functions (a method of a class defined inside a function sees that function's closures)
+            p = getattr(caller.node, "_parent", None)
+            while p is not None:
+                if isinstance(p, ast.FunctionDef):
+                    for st in p.body:
+                        if isinstance(st, ast.FunctionDef) and st.name == fn.id and hasattr(st, "_func"):
+                            return st._func, False
+                p = getattr(p, "_parent", None)
             q = caller.module.name + "." + fn.id
-            if q in self.candidates:
-                return self.candidates[q], False
+            if q in self.repo.funcs:
+                return self.repo.funcs[q], False
         if isinstance(fn, ast.Attribute) and isinstance(fn.value, ast.Name) and fn.value.id in ("self", "cls"):
             owner = caller
             while owner is not None and owner.cls is None:
@@ -116,13 +188,21 @@ class Inliner:
                 for c in self.repo.mro(owner.cls):
                     m = c.methods.get(fn.attr)
                     if m is not None:
-                        if m.qual in self.candidates:
-                            return self.candidates[m.qual], True
-                        return None, False
+                        return m, True
+        return None, False
+
+    def resolve(self, caller, call):
+        f, is_method = self._resolve_func(caller, call)
+        if f is None or f.qual in self.known:
+            return None, False
+        if f.qual in self.candidates:
+            return self.candidates[f.qual], is_method
+        if f.qual in self.new_complex:
+            self.opaque.setdefault(caller.qual, set()).add(f.qual)
         return None, False
 
     def run(self):
-        if not self.candidates:
+        if not self.candidates and not self.new_complex:
             return []
         # helpers first (a helper may call another new helper), then everything else
         order = [f for f, _ in self.candidates.values()] + [f for q, f in self.repo.funcs.items() if q not in self.candidates]
@@ -160,6 +240,8 @@ class Inliner:
             exprs = [st.value]
         elif isinstance(st, (ast.If, ast.While)):
             exprs = []      # calls in conditions are not hoisted (evaluation per iteration / short-circuit)
+            for c in [x for x in ast.walk(st.test) if isinstance(x, ast.Call)]:
+                self.resolve(caller, c)      # records opaque callers
         pre = []
         for e in exprs:
             calls = [c for c in ast.walk(e) if isinstance(c, ast.Call)]
@@ -172,10 +254,12 @@ class Inliner:
                 others = [x for x in calls if x is not c and not _contains(c, x)]
                 if _in_shortcircuit(e, c) or (others and not all(_contains(x, c) for x in others)):
                     self.remaining_sites[f.qual] = self.remaining_sites.get(f.qual, 0) + 1
+                    self.opaque.setdefault(caller.qual, set()).add(f.qual)
                     continue
                 res = self.expand(caller, st, c, f, body, is_method)
                 if res is None:
                     self.remaining_sites[f.qual] = self.remaining_sites.get(f.qual, 0) + 1
+                    self.opaque.setdefault(caller.qual, set()).add(f.qual)
                     continue
                 stmts, repl = res
                 pre.extend(stmts)
